@@ -252,7 +252,7 @@ pub fn format(p: &Parsed, width: usize) -> Result<String, String> {
 
 struct Walker {
   /// (start, end, label); later entries are deeper or equal in the tree
-  ranges: Vec<(Position, Position, &'static str)>,
+  ranges: Vec<(Position, Position, String)>,
   /// identifier locations, for `check_against_ast`
   ids: Vec<(Position, Position)>,
 }
@@ -265,12 +265,12 @@ const PAREN_OWNERS: [&str; 9] = [
 const BOUNDARY_OWNERS: [&str; 2] = ["expr.tuple", "expr.call.args"];
 
 impl Walker {
-  fn add(&mut self, l: &Location, label: &'static str) {
+  fn add(&mut self, l: &Location, label: &str) {
     if !l.start.is_dummy() {
-      self.ranges.push((l.start, l.end, label));
+      self.ranges.push((l.start, l.end, label.to_string()));
     }
   }
-  fn id(&mut self, id: &Id, label: &'static str) {
+  fn id(&mut self, id: &Id, label: &str) {
     self.add(&id.loc, label);
     if !id.loc.start.is_dummy() {
       self.ids.push((id.loc.start, id.loc.end));
@@ -281,7 +281,7 @@ impl Walker {
     match a {
       annotation::T::Primitive(l, _, _) => self.add(l, "type.prim"),
       annotation::T::Generic(l, _) => self.add(l, "type.generic"),
-      annotation::T::Id(i) => self.id_annot(i),
+      annotation::T::Id(i) => self.id_annot(i, "type.id"),
       annotation::T::Fn(f) => {
         self.add(&f.location, "type.fn");
         self.add(&f.parameters.location, "type.fn.params");
@@ -292,8 +292,10 @@ impl Walker {
       }
     }
   }
-  fn id_annot(&mut self, i: &annotation::Id) {
-    self.add(&i.location, "type.id");
+  /// label: "type.id" in annotation position; "tparam.bound" / "extends.id" where the parser reads
+  /// the identifier itself (parse_upper_id_with_comments) instead of an annotation
+  fn id_annot(&mut self, i: &annotation::Id, label: &str) {
+    self.add(&i.location, label);
     self.targs(i.type_arguments.as_ref());
   }
   fn targs(&mut self, t: Option<&annotation::TypeArguments>) {
@@ -311,7 +313,7 @@ impl Walker {
         self.add(&p.loc, "tparam");
         self.id(&p.name, "tparam.name");
         if let Some(b) = &p.bound {
-          self.id_annot(b);
+          self.id_annot(b, "tparam.bound");
         }
       }
     }
@@ -354,8 +356,15 @@ impl Walker {
     }
   }
 
-  fn block(&mut self, b: &expr::Block<()>, label: &'static str) {
+  fn block(&mut self, b: &expr::Block<()>, label: &str) {
     self.add(&b.common.loc, label);
+    // the closing brace: comments before it are the block's ending comments, which the printer puts
+    // *before* the final expression if there is one
+    let end = b.common.loc.end;
+    if !end.is_dummy() && end.1 > 0 {
+      let close = Location { module_reference: b.common.loc.module_reference, start: Position(end.0, end.1 - 1), end };
+      self.add(&close, &format!("{label}.close{}", if b.expression.is_some() { "" } else { ".noexpr" }));
+    }
     for s in &b.statements {
       match s {
         expr::Statement::Declaration(d) => {
@@ -373,7 +382,7 @@ impl Walker {
       self.expr(e);
     }
   }
-  fn if_else(&mut self, e: &expr::IfElse<()>, label: &'static str) {
+  fn if_else(&mut self, e: &expr::IfElse<()>, label: &str) {
     self.add(&e.common.loc, label);
     match e.condition.as_ref() {
       expr::IfElseCondition::Expression(c) => self.expr(c),
@@ -384,11 +393,15 @@ impl Walker {
     }
     self.block(&e.e1, "expr.if.then");
     match e.e2.as_ref() {
-      expr::IfElseOrBlock::IfElse(n) => self.if_else(n, "expr.if.elseif"),
+      expr::IfElseOrBlock::IfElse(n) => {
+        // the printer's flattened chain keeps the comments of the last `else if` only
+        let mid = matches!(n.e2.as_ref(), expr::IfElseOrBlock::IfElse(_));
+        self.if_else(n, if mid { "expr.if.elseif.mid" } else { "expr.if.elseif.last" })
+      }
       expr::IfElseOrBlock::Block(b) => self.block(b, "expr.if.else"),
     }
   }
-  fn expr_list(&mut self, l: &expr::ParenthesizedExpressionList<()>, label: &'static str) {
+  fn expr_list(&mut self, l: &expr::ParenthesizedExpressionList<()>, label: &str) {
     self.add(&l.loc, label);
     for e in &l.expressions {
       self.expr(e);
@@ -500,7 +513,7 @@ impl Walker {
           if let Some(x) = &i.extends_or_implements_nodes {
             self.add(&x.location, "extends");
             for n in &x.nodes {
-              self.id_annot(n);
+              self.id_annot(n, "extends.id");
             }
           }
           self.add(&i.members.loc, "interface.body");
@@ -538,7 +551,7 @@ impl Walker {
           if let Some(x) = &c.extends_or_implements_nodes {
             self.add(&x.location, "extends");
             for n in &x.nodes {
-              self.id_annot(n);
+              self.id_annot(n, "extends.id");
             }
           }
           self.add(&c.members.loc, "class.body");
@@ -576,7 +589,7 @@ pub fn productions(p: &Parsed, toks: &[&Tok]) -> (Vec<String>, usize) {
         }
       }
     }
-    let mut label = best.map(|(i, _)| w.ranges[i].2).unwrap_or("module");
+    let mut label: &str = best.map(|(i, _)| w.ranges[i].2.as_str()).unwrap_or("module");
     if (t.text == "(" || t.text == ")") && t.kind == TK::Op {
       // a parenthesis belongs to its node only if the node owns parentheses and (for nodes that can
       // contain expressions directly) it is the node's first or last token
@@ -591,6 +604,26 @@ pub fn productions(p: &Parsed, toks: &[&Tok]) -> (Vec<String>, usize) {
       }
     }
     out.push(label.to_string());
+  }
+  // token-level refinements (contexts the AST has no node for)
+  for j in 0..toks.len() {
+    // `else`: its comments go to what follows
+    if toks[j].text == "else" && toks[j].kind == TK::Kw && j + 1 < toks.len() {
+      let nxt = out[j + 1].clone();
+      if nxt == "expr.if.else" || nxt.starts_with("expr.if.elseif") {
+        out[j] = format!("else>{}", &nxt["expr.if.".len()..]);
+      }
+    }
+    // `(a, b, ...`: the parser reads lower-case identifiers after `(` as a cover of lambda
+    // parameters / tuple elements (parse_lower_id_with_comments) before it knows which it is
+    if out[j] == "expr.id" && toks[j].kind == TK::Lower && j > 0 {
+      let prev = toks[j - 1].text.as_str();
+      let cover = (prev == "(" && (out[j - 1] == "expr.paren" || out[j - 1] == "expr.tuple"))
+        || (prev == "," && out[j - 1] == "expr.tuple" && j > 1 && out[j - 2] == "expr.id.cover");
+      if cover {
+        out[j] = "expr.id.cover".to_string();
+      }
+    }
   }
   out.push("module".to_string());
   let spans: std::collections::HashSet<(Position, Position)> = toks.iter().map(|t| (pos(t.sp), pos(t.ep))).collect();
@@ -628,7 +661,17 @@ pub fn prepare(text: &str) -> Result<Base, String> {
   let code: Vec<usize> = (0..all.len()).filter(|i| !all[*i].is_comment()).collect();
   let toks: Vec<&Tok> = code.iter().map(|i| &all[*i]).collect();
   let (prods, id_mismatch) = productions(&p, &toks);
-  let mut kinds: Vec<String> = toks.iter().map(|t| t.kind_name()).collect();
+  // the kind of the following token; a comment before `:` is handed to the annotation after it, so
+  // for `:` the kind includes the token after it (Comments.tla, NextKind)
+  let mut kinds: Vec<String> = (0..toks.len())
+    .map(|j| {
+      if toks[j].text == ":" && j + 1 < toks.len() {
+        format!(":{}", toks[j + 1].kind_name())
+      } else {
+        toks[j].kind_name()
+      }
+    })
+    .collect();
   kinds.push("EOF".into());
   let mut imp_of = vec![];
   for t in &toks {
@@ -1073,7 +1116,7 @@ pub fn label(args: &[String]) {
         }
         let body = segs
           .iter()
-          .map(|(p, v)| format!("    S(\"{p}\", <<{}>>)", v.iter().map(|t| format!("\"{t}\"")).collect::<Vec<_>>().join(", ")))
+          .map(|(p, v)| format!("    Seg(\"{p}\", <<{}>>)", v.iter().map(|t| format!("\"{t}\"")).collect::<Vec<_>>().join(", ")))
           .collect::<Vec<_>>()
           .join(",\n");
         println!("  \\* {line}\n  <<\n{body}\n  >>,");
